@@ -15,11 +15,13 @@ Definition asem (a : atom) : jv :=
   | AFalse => JBool false
   | ARaw t => match parse t with Some j => j | None => JNull end
   end.
-Definition parses_as (t : bytes) (j : jv) : Prop :=
-  forall rest f, delim rest -> p_value (S f) (t ++ rest) = Some (j, rest).
+(* n = the fuel the token needs (1 for flat tokens; a reflected JSON text needs at most its length) *)
+Definition parses_as (n : nat) (t : bytes) (j : jv) : Prop :=
+  forall rest f, delim rest -> n <= f -> p_value f (t ++ rest) = Some (j, rest).
+Definition asize (a : atom) : nat := match a with ARaw t => length t | _ => 1 end.
 Definition starts_ok (t : bytes) : Prop :=
   match t with b :: _ => is_ws b = false /\ Byte.eqb b RBRACK = false | [] => False end.
-Definition atom_pre (a : atom) : Prop := parses_as (atxt a) (asem a) /\ starts_ok (atxt a) /\ no_ctl (atxt a) = true.
+Definition atom_pre (a : atom) : Prop := parses_as (asize a) (atxt a) (asem a) /\ starts_ok (atxt a) /\ no_ctl (atxt a) = true.
 
 Fixpoint tpre (v : jt) : Prop :=
   match v with
@@ -39,7 +41,7 @@ Definition jv_list := fix go (l : list jt) := match l with [] => [] | x :: r => 
 Definition jv_mem := fix go (l : list member) := match l with [] => [] | (k, x) :: r => (sanitize k, jv_of x) :: go r end.
 Fixpoint size (v : jt) : nat :=
   match v with
-  | TA _ => 1
+  | TA a => asize a
   | TArr l => S ((fix go (l : list jt) := match l with [] => 0 | x :: r => S (size x + go r) end) l)
   | TObj l => S ((fix go (l : list member) := match l with [] => 0 | (_, x) :: r => S (size x + go r) end) l)
   end.
@@ -121,9 +123,9 @@ Lemma skip_nonws b X : is_ws b = false -> skip_ws (b :: X) = b :: X.
 Proof. intros H. cbn [skip_ws]. now rewrite H. Qed.
 
 (* ---- atoms that need no oracle ---- *)
-Lemma quoted_parses s : parses_as (quoted s) (JStr (sanitize s)).
+Lemma quoted_parses s : parses_as 1 (quoted s) (JStr (sanitize s)).
 Proof.
-  intros rest f _. unfold quoted. rewrite <- !app_assoc. cbn [app]. rewrite pv_quote.
+  intros rest f _ Hf. destruct f as [|f]; [lia|]. unfold quoted. rewrite <- !app_assoc. cbn [app]. rewrite pv_quote.
   rewrite string_roundtrip; [reflexivity|]. rewrite app_length. cbn. lia.
 Qed.
 Lemma quoted_starts s : starts_ok (quoted s).
@@ -143,17 +145,17 @@ Proof.
     + rewrite IH; [|exact Hr|cbn in Hf; lia]. cbn [rev]. now rewrite <- app_assoc.
     + apply N.leb_gt. apply N.ltb_lt in H2. exact H2.
 Qed.
-Lemma aq_parses b : plain_okb b = true -> parses_as (atxt (AQ b)) (JStr b).
+Lemma aq_parses b : plain_okb b = true -> parses_as 1 (atxt (AQ b)) (JStr b).
 Proof.
-  intros Hp rest f _. cbn [atxt]. rewrite <- !app_assoc. cbn [app]. rewrite pv_quote.
+  intros Hp rest f _ Hf. destruct f as [|f]; [lia|]. cbn [atxt]. rewrite <- !app_assoc. cbn [app]. rewrite pv_quote.
   rewrite plain_parse; [reflexivity|exact Hp|cbn; rewrite app_length; cbn; lia].
 Qed.
-Lemma true_parses : parses_as s_true (JBool true).
-Proof. intros rest f _. reflexivity. Qed.
-Lemma false_parses : parses_as s_false (JBool false).
-Proof. intros rest f _. reflexivity. Qed.
-Lemma int_parses z : parses_as (print_Z z) (JNum (print_Z z)).
-Proof. intros rest f Hr. apply p_value_number; [apply print_Z_head|now apply print_Z_parses]. Qed.
+Lemma true_parses : parses_as 1 s_true (JBool true).
+Proof. intros rest f _ Hf. destruct f as [|f]; [lia|]. reflexivity. Qed.
+Lemma false_parses : parses_as 1 s_false (JBool false).
+Proof. intros rest f _ Hf. destruct f as [|f]; [lia|]. reflexivity. Qed.
+Lemma int_parses z : parses_as 1 (print_Z z) (JNum (print_Z z)).
+Proof. intros rest f Hr Hf. destruct f as [|f]; [lia|]. apply p_value_number; [apply print_Z_head|now apply print_Z_parses]. Qed.
 Lemma int_starts z : starts_ok (print_Z z).
 Proof.
   pose proof (print_Z_head z) as H. unfold starts_ok. destruct (print_Z z) as [|b r]; [exact H|].
@@ -230,7 +232,7 @@ Qed.
 Theorem tree_parses : forall v, Pt v.
 Proof.
   apply jt_ind'.
-  - (* atom *) intros a [Hp [Hs _]]. split; [|exact Hs]. intros rest f Hr Hf. cbn [size] in Hf. destruct f; [lia|]. now apply Hp.
+  - (* atom *) intros a [Hp [Hs _]]. split; [|exact Hs]. intros rest f Hr Hf. cbn [size] in Hf. now apply Hp.
   - (* array *) intros l Hl Hp. split; [|split; reflexivity].
     intros rest f Hr Hf. rewrite pv_arr. cbn [size] in Hf. fold (esize l) in Hf. destruct f as [|f]; [lia|].
     rewrite <- !app_assoc. cbn [app]. rewrite pv_lbrack. destruct l as [|v r].
@@ -288,7 +290,7 @@ Proof. destruct sp; cbn; lia. Qed.
 Theorem size_le : forall v, tpre v -> size v <= length (pv v).
 Proof.
   apply (jt_ind' (fun v => tpre v -> size v <= length (pv v))).
-  - intros a (_ & Hs & _). cbn [size JsonAst.pv]. now apply starts_len.
+  - intros a (_ & Hs & _). cbn [size JsonAst.pv]. destruct a; cbn [asize atxt] in *; try (now apply starts_len); lia.
   - intros l Hl Hp. rewrite pv_arr, !app_length. cbn [size length]. fold (esize l).
     assert (G : esize l <= length (pelems l) + 1).
     { revert Hp. induction Hl as [|x r Hx _ IH]; intros Hp; [cbn; lia|]. cbn [tpre] in Hp. destruct Hp as [H1 H2].
